@@ -492,7 +492,9 @@ def run(tier, seed):
         except ValueError:
             desc = None
         if data is None:
-            # an error: fine for documents the DSL cannot express; a clean in-domain document must convert
+            # an error: right for documents the DSL cannot express; a clean in-domain document must convert
+            if must_fail(doc):
+                continue
             if clean and dom and desc is not None and not any(k in ("text", "attr") and re.search("[\x00-\x08\x0b\x0c\x0e-\x1f￾￿]", s) for k, s in ws):
                 bad.append(dict(base, why="a document with valid names and string content was rejected: " + r["err"]))
             continue
